@@ -58,11 +58,19 @@ def lookalike(ast, d, depth=0, memo=None):
     memo[id(ast)] = r
     return r
 
+# fixed cases that run first: corner inputs on which the model once differed from the code
+CORPUS = [
+    # childless compounds of different classes with one id: flatten() lists X twice, the polyhedron has ONE column X
+    {"k": "Any", "id": "T", "ch": [{"k": "Any", "id": "P", "ch": [{"k": "All", "id": "X", "ch": []}, {"k": "str", "id": "p"}]},
+                                   {"k": "Any", "id": "Q", "ch": [{"k": "AtLeast", "v": 0, "s": None, "id": "X", "ch": []}, {"k": "str", "id": "q"}]}]},
+]
+
 def run(res, tier, seed):
     rng = random.Random(seed * 1000003 + 1)
     res.rule = RULE
     n_models = 400 if tier == "quick" else 5000
-    models = gen_valid(rng, n_models, res, depth_max=4, want=lambda m: plain(m))
+    models = [(a, build(a)) for a in CORPUS] + gen_valid(rng, n_models, res, depth_max=4, want=lambda m: plain(m))
+    res.count("corpus_cases", len(CORPUS))
     cases = []
     for ast, m in models:
         res.count("depth_%d" % depth_of(m))
